@@ -23,7 +23,7 @@ def pFn (j : Json) : Fn :=
     flavour := (match jS (jF j "flavour") with | "coroutine" => .coroutine | "generator" => .generator | _ => .sync)
     mode := (match jS (jF j "mode") with | "requireKwargs" => .requireKwargs | _ => .pedantic) }
 def pTruth (j : Json) : Truth :=
-  { realStatic := jB (jF j "realStatic"), realSetter := jB (jF j "realSetter"), implicit := jN (jF j "implicit") }
+  { realStatic := jB (jF j "realStatic"), realSetter := jB (jF j "realSetter"), realPedantic := jB (jF j "realPedantic"), implicit := jN (jF j "implicit") }
 def pBody (j : Json) : BodyOut :=
   match jTag j with
   | "raises" => .raises (jN (jAt j 1))
@@ -53,6 +53,13 @@ def handle (c : Json) : Json :=
          ("flags", mkObj [("wantsArgs", jBool f.wantsArgs), ("isStatic", jBool f.isStatic), ("isSetter", jBool f.isSetter),
                           ("isPedantic", jBool f.isPedantic), ("numDecorators", jNat f.numDecorators), ("strips", jBool f.strips),
                           ("shouldHaveKwargs", jBool f.shouldHaveKwargs), ("clazzFails", jBool (f.clazzFails args))]),
+         ("regions", jArr ((
+            (if !truthful f t then ["untruthful"] else []) ++ (if f.clazzFails args then ["clazzFails"] else []) ++
+            (if regionStripped f t args then ["stripped"] else []) ++
+            (if args.any Val.hasNT || kw.any (fun kv => kv.2.hasNT) || f.params.any (fun p => match p.dflt with | some d => d.hasNT | none => false)
+                || (match body with | .ret r => r.hasNT | _ => false) then ["namedtuple"] else []) ++
+            (if !(args.all Val.plain && kw.all (fun kv => kv.2.plain) && (match body with | .ret r => r.plain | _ => true)) then ["nonPlain"] else [])
+            ).map jStr)),
          ("wf", jBool ((args.all (fun v => v.wf env)) && (kw.all (fun kv => kv.2.wf env))))]
 
 end PedVerif.Drv.CallLayer
